@@ -1,7 +1,7 @@
 SPECIFICATION Spec
 CONSTANTS
   M = {1}
-  MaxN = 4
+  MaxN = 3
   Delays = {0, 1, 2}
   Actives = {0, 1, 2}
   Starts = {2}
